@@ -1,7 +1,7 @@
 (* C01 - Shell forwards every port event to its counterpart exactly once, intact. *)
 From Coq Require Import List NArith Bool String.
 From Dznpy Require Import Base.PyStr Base.Result Model.TextGen Model.Scoping Model.PortSelection Model.CppGen Model.Ast
-  Model.SupportFiles Sem.ShellSem Sem.Exec Model.Builder Proofs.SemFacts Proofs.ShellPlanFacts Proofs.HygieneFacts.
+  Model.SupportFiles Sem.ShellSem Sem.Exec Model.Builder Proofs.SemFacts Proofs.ShellPlanFacts Proofs.HygieneFacts Proofs.PlanHygiene.
 Import ListNotations.
 
 (* The statements below are the ones the builder model renders into the constructor text (Model/Builder.v: in_stmts,
@@ -139,6 +139,15 @@ Theorem C01_requires_out_event_end_to_end : forall sc fc pp rp L, ctor_assigns f
              Done (fst (sc (sl (Enc (cp_name p)) DOut e) vs)) (snd (sc (sl (Enc (cp_name p)) DOut e) vs))).
 Proof. exact requires_out_event_end_to_end. Qed.
 Print Assumptions C01_requires_out_event_end_to_end.
+
+(* ... and the plans the builder constructs ARE hygienic whenever the parsed model has distinct port names on the encapsulee
+   and distinct event names in every interface (what Dezyne guarantees): the end-to-end theorems speak about every
+   successful build of such a model. *)
+Theorem C01_built_plans_are_hygienic : forall cfg fc parent ports ze scope sfns, create_dzn_elements cfg fc parent ports = Ok ze ->
+  model_names_distinct fc ports ->
+  hygienic (map (create_cpp_portitf scope sfns) (ze_provides ze)) (map (create_cpp_portitf scope sfns) (ze_requires ze)).
+Proof. exact dzn_elements_hygienic. Qed.
+Print Assumptions C01_built_plans_are_hygienic.
 
 (* an event whose slot was left unbound is reported, never silently dropped or misrouted *)
 Theorem C01_unbound_is_reported : forall sc w s vs c, lookup (w_slots w) s = Unset -> call sc 1 w s vs c = (w, Unbound s).
